@@ -29,6 +29,12 @@ func (p Persist) Store(ctx context.Context, name string, bytes []byte) error {
 	if os.IsNotExist(err) {
 		return writeFileAtomically(p.basepath, path, name, bytes)
 	}
+	if err != nil {
+		// Whether the node is there could not be found out (the base path is
+		// not a directory, no permission, a name the file system refuses, an
+		// I/O error): nothing was written, so do not report success.
+		return err
+	}
 	return nil
 }
 
